@@ -86,7 +86,7 @@ def main():
         res["confirmed"] = ok
         d = os.path.join(wt, "out", str(k))
         if ok:
-            dst = os.path.join(V, "seeded", "%s-%s" % (prop, k))
+            dst = os.path.join(V, "seeded", "%s-%d" % (prop, int(k) + int(os.environ.get("SEED_OFFSET", "0"))))
             os.makedirs(dst, exist_ok=True)
             for f in ("patch.diff", "demo.cpp"):
                 shutil.copy(os.path.join(d, f), os.path.join(dst, f))
